@@ -35,7 +35,7 @@ EXPLANATION = (
     "NOT decided: optimality itself (paper induction over a-e) and equality of the final score with the cost of the result."
 )
 # obligations added during the build phase (seeding rounds, twins, mutation analysis)
-ADDED_IN_BUILD = ' Also: (g) BINDING - PELT._predict hands the driver the values of the input, the fitted penalty_, the configured min_segment_length and, on every path, the very cost object the user configured (an arbitrary user cost whose truth value is unknown: a default substituted by `cost or L2Cost()` is reported); the PELT obligations of C10.c NO-STALE-READ are re-run here. The prefix scores PELT publishes are the driver\'s optimal costs: stores into that vector are confined to [: min_segment_length - 1].'
+ADDED_IN_BUILD = ' Also: (g) BINDING - PELT._predict hands the driver the values of the input, the fitted penalty_, the configured min_segment_length and, on every path, the very cost object the user configured (an arbitrary user cost whose truth value is unknown: a default substituted by `cost or L2Cost()` is reported); the PELT obligations of C10.c NO-STALE-READ are re-run here. The prefix scores PELT publishes are the driver\'s optimal costs: stores into that vector are confined to [: min_segment_length - 1]. published-scores: PELT._transform_scores hands out the stored prefix scores as they are (a running maximum / clip / slice of them is a violation).'
 EXPLANATION = EXPLANATION + ADDED_IN_BUILD
 
 ASSUMPTIONS = [
